@@ -24,20 +24,19 @@ from harness import framework
 from harness.framework import canon
 from harness import webstatic_driver as W
 
-TREES = {}
+TREES = []
 
 
 def _trees():
     if not TREES:
-        TREES[True] = W.Tree(True)
-        TREES[False] = W.Tree(False)
-    return TREES
+        TREES.append(W.Trees())
+    return TREES[0]
 
 
 def _drop_trees():
-    for t in TREES.values():
+    for t in TREES:
         t.remove()
-    TREES.clear()
+    del TREES[:]
 
 
 def _sig(method, raw, exp, obs, extra):
@@ -50,8 +49,8 @@ def _sig(method, raw, exp, obs, extra):
 def observe(dflt, method, raw):
     """Run one request on both trees; returns (obs_with_outside, code, obs_without, code2)."""
     ts = _trees()
-    o1, c1 = W.project_static(method, W.static_request(ts[True], dflt, method, raw[True]))
-    o2, c2 = W.project_static(method, W.static_request(ts[False], dflt, method, raw[False]))
+    o1, c1 = W.project_static(method, W.static_request(ts.root[True], dflt, method, raw[True]))
+    o2, c2 = W.project_static(method, W.static_request(ts.root[False], dflt, method, raw[False]))
     return o1, c1, o2, c2
 
 
@@ -60,7 +59,7 @@ def replayer(extra, path):
     ts = _trees()
     for i, s in enumerate(path):
         method, raw = s["args"]
-        o1, c1, o2, c2 = observe(cfg["dflt"], method, {True: ts[True].subst(raw), False: ts[False].subst(raw)})
+        o1, c1, o2, c2 = observe(cfg["dflt"], method, {True: ts.subst(raw, True), False: ts.subst(raw, False)})
         exp = s["exp"]
         for obs, which in ((o1, "with"), (o2, "without")):
             if obs != exp:
@@ -116,17 +115,12 @@ def random_trace(args):
             out = []
             for j, sg in enumerate(segs):
                 if j:
-                    out.append(47 if rng.random() < 0.8 or which is False and False else 47)
+                    out.append(47)
                 if sg == "ABS":
-                    t = ts[which]
-                    for nm in ("tmp", t.name, "r"):
-                        out.append(256 + 47)
-                        out.extend(W.chars(nm))
+                    out.extend(ts.abs_root_units(which))
                 else:
                     out.extend(sg)
             raws[which] = out
-        # %2F separators: replace the same positions in both variants
-        seps = [i for i, u in enumerate(raws[True]) if u == 47]
         method = rng.choice(["GET", "GET", "HEAD"])
         o1, c1, o2, c2 = observe(dflt, method, raws)
         obs, twin = (o1, o2) if outside else (o2, o1)
@@ -144,11 +138,11 @@ def run(ctx):
         nt = lambda e, p: len(p[0]["args"][1]) > 0
         t0 = time.time()
         paths = W.mc_states(ctx, "webstatic", "StaticPath", "MC_StaticPath.cfg",
-                            overrides={"GenToks": set(ctx.pick(toks_q, toks_all)), "PathLen": L}, required_actions=["Next"])
+                            overrides={"GenToks": set(ctx.pick(toks_q, toks_all)), "PathLen": L}, required_actions=["request"])
         ctx.replay(paths, replayer, nontrivial=nt)
         if ctx.quick:        # the long-tail tokens at length 2 in the quick tier
             paths2 = W.mc_states(ctx, "webstatic", "StaticPath", "MC_StaticPath.cfg",
-                                 overrides={"GenToks": set(toks_all), "PathLen": 2}, required_actions=["Next"])
+                                 overrides={"GenToks": set(toks_all), "PathLen": 2}, required_actions=["request"])
             ctx.replay(paths2, replayer, nontrivial=nt)
         ctx._phase("mc+s2c", t0)
         ctx.cov["exhaustive"] = True
@@ -156,14 +150,10 @@ def run(ctx):
         jobs = [(i + 1, ctx.seed * 1000003 + i, 25) for i in range(n)]
         t0 = time.time()
         traces = framework.pool_map(random_trace, jobs)
-        for which in (True, False):      # one validation run per scratch tree (RootP is a constant of the trace spec)
-            part = [t for t in traces if t["cfg"]["outside"] is which]
-            if part:
-                name = _trees()[which].name
-                ctx.validate("webstatic", "Trace_StaticPath", "Trace_StaticPath.cfg", part,
-                             overrides={"RootName": "{%s}" % ", ".join(str(1000 * (i + 1) + ord(c)) for i, c in enumerate(name))},
-                             sig_fn=lambda t, bad, l: {"method": bad["args"][0], "obs_kind": bad["obs"]["kind"],
-                                                       "twin_kind": bad["twin"]["kind"], "codes": [bad["code"], bad["code2"]]} if bad else {})
+        ctx.validate("webstatic", "Trace_StaticPath", "Trace_StaticPath.cfg", traces, shards=ctx.pick(2, None),
+                     overrides={"RootName": W.enc_name(_trees().name), "SideW": W.enc_name("w"), "SideN": W.enc_name("n")},
+                     sig_fn=lambda t, bad, l: {"method": bad["args"][0], "obs_kind": bad["obs"]["kind"],
+                                               "twin_kind": bad["twin"]["kind"], "codes": [bad["code"], bad["code2"]]} if bad else {})
         ctx._phase("c2s", t0)
         ctx.cov["rule"] = ("requests: every path of <= %d tokens over the %d-token alphabet x GET/HEAD x default_filename on/off, each "
                            "on the tree with and without files outside the root; random recorded request sequences (25 requests "
